@@ -170,11 +170,12 @@ Fixpoint src_reads (fuel n : nat) (caps : list nat) (data : bytes) : list bytes 
   end.
 
 Inductive out :=
-| Out (writes : list bytes) (closed : bool)
-| Crash.      (* next() on a list: Response.stream set on a body that is not an iterator *)
+| Out (writes : list bytes) (closed : bool).
 
-Definition truthy (c : cfg) : bool :=
-  if eff_sized c then (match eff_chunks c with [] => false | _ => true end) else true.
+(* only an iterator is streamed: with Response.stream set on a complete body (list of strings; e.g. a
+   handler that sets the flag and returns a str, a list, or a generator that the core runs as a coroutine)
+   the body is written at once like any other sized body *)
+Definition streamed (c : cfg) : bool := eff_stream c && negb (eff_sized c).
 
 (* _on_response followed by the chain of _on_stream events *)
 Definition respond (c : cfg) : out :=
@@ -182,17 +183,16 @@ Definition respond (c : cfg) : out :=
   let fr := fun d => if chunked c then frame d else d in
   let tl := if chunked c then [term] else [] in
   if head c then Out [hd] (close1 c)
-  else if eff_stream c && truthy c then
-    if eff_sized c then Crash
-    else Out ([hd] ++ map fr (filter nonempty (eff_chunks c)) ++ tl) (close1 c)
+  else if streamed c then
+    Out ([hd] ++ map fr (filter nonempty (eff_chunks c)) ++ tl) (close1 c)
   else
     let body := concat (eff_chunks c) in
     Out ([hd] ++ (if nonempty body then [fr body] else []) ++ tl) (close1 c).
 
 Definition wire (c : cfg) : bytes :=
-  match respond c with Out ws _ => concat ws | Crash => [] end.
+  match respond c with Out ws _ => concat ws end.
 Definition closed (c : cfg) : bool :=
-  match respond c with Out _ b => b | Crash => false end.
+  match respond c with Out _ b => b end.
 
 (* ------------------------------------------------------------------ the independent client *)
 Fixpoint split_crlf (l : bytes) : option (bytes * bytes) :=
